@@ -35,7 +35,7 @@ func runBulkRace(seed uint64, index int64, o hx.Opts) *hx.Result {
 	var bad *hx.Violation
 	n := 0
 	v := w.Run(func() {
-		v6Addrs = false
+		v6Addrs, tailTwin = false, false
 		rt.JumpClock(1)
 		n = 130 + hx.G(200)
 		ns := nbtns.NewNetBIOSNameServer(hx.G(2) == 1)
@@ -83,7 +83,7 @@ func runBulkEnum(seed uint64, index int64, o hx.Opts) *hx.Result {
 	w.NoSkip = true
 	var bad *hx.Violation
 	v := w.Run(func() {
-		v6Addrs = false
+		v6Addrs, tailTwin = false, false
 		rt.JumpClock(1)
 		ns := nbtns.NewNetBIOSNameServer(secured)
 		name := func(i int) string { return fmt.Sprintf("BULK%05d", i) }
